@@ -129,10 +129,12 @@ theorem SvStep.cnEnter {n m : N} (h : SvStep n m) (cfg : Cfg) (w : Who) : SvStep
     · exact h0.cnFail cfg w
     · exact h0
   · split
-    · simp only
-      refine SvStep.push (SvStep.push (SvStep.setCn ?_ _ _) _) _
-      exact h.same rfl rfl
-    · exact h.cnFail cfg w
+    · exact SvStep.cnFail (m := { m with connFail := m.connFail - 1 }) (h.same rfl rfl) cfg w
+    · split
+      · simp only
+        refine SvStep.push (SvStep.push (SvStep.setCn ?_ _ _) _) _
+        exact h.same rfl rfl
+      · exact h.cnFail cfg w
 
 theorem SvStep.cnStop {n m : N} (h : SvStep n m) (w : Who) : SvStep n (cnStop m w) := by
   unfold Tbox.C06.Net.cnStop; simp only
@@ -598,7 +600,14 @@ theorem handle_svI (cfg : Cfg) (n : N) (m : Msg) (h : SvI none n) : SvI none (ha
       split
       · split
         · exact h.step ((SvStep.of_eq rfl rfl rfl : SvStep n ({ n with acceptFail := n.acceptFail - 1 } : N)).push _)
-        · exact (svAccept_svI n _ _ h).step ((SvStep.refl _).runCb cfg _ _ _)
+        · split
+          · rename_i l rest _ _ _ _
+            have h0 : SvStep n (({ n with acceptAbort := n.acceptAbort - 1, backlog := rest } : N).closeSNow l) :=
+              (SvStep.of_eq rfl rfl rfl : SvStep n ({ n with acceptAbort := n.acceptAbort - 1, backlog := rest } : N)).closeSNow l
+            split
+            · exact h.step (h0.push _)
+            · exact h.step h0
+          · exact (svAccept_svI n _ _ h).step ((SvStep.refl _).runCb cfg _ _ _)
       · exact h
   | toS l d =>
       simp only [handle]
@@ -733,9 +742,11 @@ theorem drain_svI (cfg : Cfg) (fuel : Nat) (n : N) (h : SvI none n) : SvI none (
       split
       · rename_i m rest _
         exact ih _ (handle_svI cfg _ _ (h.step (SvStep.of_eq rfl rfl rfl)))
-      · split
-        · exact h
-        · exact ih _ (h.step (SvStep.of_eq rfl rfl rfl))
+      · have h' : SvI none n.endPass := h.step (SvStep.of_eq rfl rfl rfl)
+        simp only
+        split
+        · exact h'
+        · exact ih _ (h'.step (SvStep.of_eq rfl rfl rfl))
 
 theorem stepQ_svI (cfg : Cfg) (n : N) (op : Op) (h : SvI none n) : SvI none (stepQ cfg n op) := by
   unfold stepQ
